@@ -5,6 +5,8 @@ import Nstd.Hash.LemmasConst
 import Nstd.Hash.LemmasStable
 import Nstd.Generated.HashConst
 import Nstd.Generated.HashFn
+import Nstd.Hash.LemmasHashFn
+import Nstd.Hash.LemmasClosing
 /-
   Property C02: HashMap / HashSet / PoolMap behave as insertion-ordered unique-key tables.
 
@@ -389,20 +391,14 @@ theorem hash_respects_equality (v w : StrView) (hl : v.len < M) (hv : v.off + v.
 open Nstd.Generated.HashFn in
 /-- the consistency `refines` assumes of the key type, for the integral and pointer keys of Base.hpp: every overload that
     the preprocessor leaves active is a function of the bit pattern of its argument alone (the translator refuses a body
-    that mentions anything but the parameter under a `(usize)` cast, `sizeof` and literals), so equal keys have equal
-    codes, and every code fits `usize` -/
+    that mentions anything but the parameter, integer casts, `sizeof` and literals, and any arithmetic that is not an
+    operation in usize), so equal keys have equal codes, and every code fits `usize`.  The proof does not depend on the
+    number of overloads or on their bodies beyond the outermost operation. -/
 theorem hash_int_respects_equality :
     ∀ o ∈ overloads, ∀ x y : Nat, x = y → o.2.2.2 x = o.2.2.2 y ∧ o.2.2.2 x < M := by
-  intro o ho x y hxy
-  subst hxy
-  refine ⟨rfl, ?_⟩
-  simp only [overloads, List.mem_cons, List.not_mem_nil, or_false] at ho
-  rcases ho with e | e | e | e | e | e | e | e | e <;> subst e <;>
-    simp only [hash_int8, hash_uint8, hash_int16, hash_uint16, hash_int32, hash_uint32, hash_int64, hash_uint64, hash_ptr,
-      castUsize, ushr, M] <;>
-    first
-      | exact Nat.mod_lt _ (by decide)
-      | exact Nat.lt_of_le_of_lt (Nat.shiftRight_le _ _) (Nat.mod_lt _ (by decide))
+  simp only [overloads, List.forall_mem_cons, List.not_mem_nil, false_imp_iff, implies_true, and_true]
+  repeat' apply And.intro
+  all_goals (intro x y hxy; subst hxy; exact ⟨rfl, by hash_bound⟩)
 
 /-! ### items never move while they live (mechanism level of property C05) -/
 
@@ -692,6 +688,49 @@ theorem ptr_structure (kind : Kind) (h : Nat → Nat) (ipb dcap : Nat) (hk : 0 <
         funext id; exact (hrel.kv id).1
       rw [this]; exact hi.keys_nodup
     · rw [hrel.cap]; exact hi.cap_pos
+
+/-! ### a client of the library: `Server::Private::_closingClients` (property C14) -/
+
+open Nstd.Generated.HashFn Ptr in
+/-- `_closingClients` is a `HashSet<ClientImpl*>` with an explicit bucket count, keyed by object addresses through the
+    library's `hash(const void*)` (here: the function translated from the CURRENT Base.hpp).  For EVERY bucket count `c`
+    (Server.cpp says 8; 0 would become 1), every block size / default capacity, and every sequence of the members Server
+    calls – `append(&client)`, `remove(&client)`, `isEmpty()`, `front()`, `removeFront()`, `clear()` – with arbitrary
+    addresses (any number of them colliding in a bucket, released and re-used addresses included), the chain-list model
+    AND the pointer-level model of HashSet return exactly what the plain list machine `closingRun` returns, which is the
+    `St.closing` list of the C14 model (`addClosing` = append unless present, `filter`, head / tail): the key list stays
+    equal to that list and an op is rejected (an invalid call: `front()` / `removeFront()` of an empty set) iff the list
+    machine rejects it.  This is what justifies the abstract list in `Nstd/Server/ModelC14.lean`; the seeded change C14-3
+    (`HashSet::remove` without `item->nextCell->cell = item->cell`) breaks the premise `PtrModel` ≙ HashSet.hpp, which the
+    C02 correspondence run checks (seeded C02-1 is the same edit in HashMap.hpp). -/
+theorem closing_clients_is_a_list (ipb dcap : Nat) (hk : 0 < ipb) (hd : 0 < dcap) (c c' : Nat) (ops : List ClosingOp) :
+    (run Kind.set hash_ptr ⟨Table.construct ipb dcap c, Table.construct ipb dcap c'⟩ (ops.map ClosingOp.toOp)).map
+        (fun r => (Spec.keys r.1.a.iterate, r.2)) = closingRun [] ops ∧
+    (prun Kind.set hash_ptr ⟨PTable.construct false ipb dcap c, PTable.construct true ipb dcap c'⟩
+        (ops.map ClosingOp.toOp)).map (fun r => r.2) = (closingRun [] ops).map (fun r => r.2) := by
+  have h1 := refines_every_capacity Kind.set hash_ptr ipb dcap hk hd c c' (ops.map ClosingOp.toOp)
+  have h2 : _ = closingRun [] ops := closing_run Spec.init ops
+  have h3 := ptr_refines_every_capacity Kind.set hash_ptr ipb dcap hk hd c c' (ops.map ClosingOp.toOp)
+  constructor
+  · rw [← h2, ← h1]
+    cases run Kind.set hash_ptr ⟨Table.construct ipb dcap c, Table.construct ipb dcap c'⟩ (ops.map ClosingOp.toOp) with
+    | none => rfl
+    | some r => rfl
+  · rw [h3, ← h2]
+    cases Spec.run Kind.set Spec.init (ops.map ClosingOp.toOp) with
+    | none => rfl
+    | some r => rfl
+
+/-- the list machine is not vacuous: two addresses in one of 8 buckets (`hash(p) = p >> 3`: 64 and 128 collide), the later
+    one removed by key first, then the closing loop pops the earlier one – the history of seeded change C14-3 -/
+example :
+    (run Kind.set Nstd.Generated.HashFn.hash_ptr ⟨Table.construct 4 500 8, Table.construct 4 500 8⟩
+      ([ClosingOp.add 64, .add 128, .del 128, .isEmpty, .front, .pop, .isEmpty, .del 64, .add 128, .front].map ClosingOp.toOp)).map
+      (fun r => (Spec.keys r.1.a.iterate, r.2))
+    = some ([128], [.unit, .unit, .unit, .flag false, .num 64, .num 0, .flag true, .unit, .unit, .num 128]) ∧
+    closingRun [] [ClosingOp.add 64, .add 128, .del 128, .isEmpty, .front, .pop, .isEmpty, .del 64, .add 128, .front]
+    = some ([128], [.unit, .unit, .unit, .flag false, .num 64, .num 0, .flag true, .unit, .unit, .num 128]) := by
+  decide
 
 /-! ### non-vacuity: the hypotheses are met by non-trivial states, the runs are not all rejected -/
 
